@@ -10,10 +10,10 @@ H1EFF = 0xd201000000010001
 H2EFF = 0xbc69f08f2ee75b3584c6a0ea91b352888e2a8e9145ad7689986ff031508ffe1329c2f178731db956d82bf015d1212b02ec0ec69d7477c1ae954cbc06689f6a359894c0adebbf6b4e8020005aaa95551
 
 
-def env_text(u, with_points=True):
+def env_text(u, with_points=True, group='group_axioms'):
     """shared environment of the group-level units"""
     u.add(spec_text('group.vrs'))
-    u.add("pub mod code {\nuse vstd::prelude::*;\nuse super::grp::*;\nbroadcast use group_axioms;\n")
+    u.add(f"pub mod code {{\nuse vstd::prelude::*;\nuse super::grp::*;\nbroadcast use {group};\n")
     from units.tower import tower_env
     tower_env(u, opaque='all')
     u.add(spec_text('curve_traits.vrs'))
